@@ -6,6 +6,11 @@
   `does_verify_our_new_public_address_with_self_ping`), `Actor.handleResponse` (its read-only
   guard), `Actor.updateAddressVotes`, `Actor.cleanupDone`, `Actor.maintenance`, after the `fix:`
   commit that restores the confirming self-ping.
+
+  Two layers: the single operations (first part), and the whole node (second part): `client_step` —
+  one iteration of the loop of a node in client mode, in any state, with any datagram and API call:
+  nothing stored, nothing but requests sent, read-only if still a client afterwards, core and socket
+  agree on the mode; `server_step` — a server never goes back; `client_run` — every run.
 -/
 import MainlineModel.Lemmas.ActorLemmas
 namespace Mainline.Props.C18
@@ -201,5 +206,664 @@ theorem server_stays_server (a : Actor) (now : Nat)
   exact ⟨by rw [h3.2.1, hc], by rw [h3.1, hs]⟩
 
 theorem refresh_interval : Constants.REFRESH_TABLE_SECS = 15 * 60 := by decide
+
+
+/-! ## The whole node in client mode -/
+
+/-- the data the node's server stores for others -/
+def held (a : Actor) :=
+  (a.core.server.peers, a.core.server.signedPeers, a.core.server.immutable, a.core.server.mutable)
+
+/-- a request, flagged read-only exactly when `clientSock` -/
+def RoRequest (sockServer : Bool) (m : Message) : Prop := (∃ r, m.mtype = .request r) ∧ m.readOnly = !sockServer
+
+/-- a stretch of the loop during which the node stays in the mode it is in, changes nothing it
+    stores for others, and sends only requests, flagged read-only exactly when its socket is in
+    client mode -/
+structure Quiet (a a' : Actor) : Prop where
+  sock : a'.sockServerMode = a.sockServerMode
+  core : a'.core.serverMode = a.core.serverMode
+  stores : held a' = held a
+  sent : ∃ l, a'.out = a.out ++ l ∧ ∀ x ∈ l, RoRequest a.sockServerMode x.2
+
+theorem Quiet.refl (a : Actor) : Quiet a a := ⟨rfl, rfl, rfl, [], by simp, by intro x h; cases h⟩
+
+theorem Quiet.trans {a b c : Actor} (h1 : Quiet a b) (h2 : Quiet b c) : Quiet a c := by
+  obtain ⟨l1, e1, p1⟩ := h1.sent
+  obtain ⟨l2, e2, p2⟩ := h2.sent
+  refine ⟨h2.sock.trans h1.sock, h2.core.trans h1.core, h2.stores.trans h1.stores, l1 ++ l2, ?_, ?_⟩
+  · rw [e2, e1, List.append_assoc]
+  · intro x hx
+    rcases List.mem_append.1 hx with h | h
+    · exact p1 x h
+    · have := p2 x h; rw [h1.sock] at this; exact this
+
+/-- nothing sent, same modes, same stores -/
+theorem Quiet.silent {a a' : Actor} (ho : a'.out = a.out) (hs : a'.sockServerMode = a.sockServerMode)
+    (hc : a'.core.serverMode = a.core.serverMode) (hst : held a' = held a) : Quiet a a' :=
+  ⟨hs, hc, hst, [], by simp [ho], by intro x h; cases h⟩
+
+theorem request_quiet (a : Actor) (to : Addr) (req : Request) (now : Nat) : Quiet a (a.request to req now).1 :=
+  ⟨rfl, rfl, rfl, _, rfl, by
+    intro x hx
+    simp only [List.mem_singleton] at hx
+    subst hx
+    exact ⟨⟨req, rfl⟩, rfl⟩⟩
+
+theorem ping_quiet (a : Actor) (to : Addr) (now : Nat) : Quiet a (a.ping to now) := request_quiet a to _ now
+
+theorem visit_quiet (a : Actor) (q : IterQuery) (to : Addr) (now : Nat) : Quiet a (a.visit q to now).1 :=
+  request_quiet a to q.request now
+
+theorem visitAll_quiet (a : Actor) (q : IterQuery) (tos : List Addr) (now : Nat) : Quiet a (a.visitAll q tos now).1 := by
+  unfold visitAll
+  induction tos generalizing a q with
+  | nil => exact Quiet.refl a
+  | cons t ts ih =>
+    simp only [List.foldl_cons]
+    exact Quiet.trans (visit_quiet a q t now) (ih _ _)
+
+theorem startLookup_quiet (a : Actor) (k : GetKind) (t : Id) (extra : List Addr) (now : Nat) :
+    Quiet a (a.startLookup k t extra now) := by
+  obtain ⟨c1, _, _, _, _, c6⟩ := createIter_fields a.core k t extra now
+  unfold startLookup
+  split
+  · rename_i core q toVisit hm
+    rw [hm] at c1 c6
+    simp only at c1 c6
+    have hb : Quiet a { a with core := core } := Quiet.silent rfl rfl c1 (by simp [held, c6])
+    have hv := visitAll_quiet { a with core := core } q toVisit now
+    obtain ⟨vc, _⟩ := visitAll_core { a with core := core } q toVisit now
+    have hfin : Quiet (visitAll { a with core := core } q toVisit now).1
+        { (visitAll { a with core := core } q toVisit now).1 with
+          core := { core with iter := alSet core.iter t (visitAll { a with core := core } q toVisit now).2 } } :=
+      Quiet.silent rfl rfl (by simp [vc]) (by simp [held, vc])
+    exact Quiet.trans hb (Quiet.trans hv hfin)
+  · rename_i core hm
+    rw [hm] at c1 c6
+    simp only at c1 c6
+    exact Quiet.silent rfl rfl c1 (by simp [held, c6])
+
+theorem get_quiet (a : Actor) (k : GetKind) (t : Id) (extra : List Addr) (now : Nat) :
+    Quiet a (a.get k t extra now).1 := by
+  unfold Actor.get
+  split
+  · exact Quiet.refl a
+  · exact startLookup_quiet a k t extra now
+
+theorem populate_quiet (a : Actor) (now : Nat) : Quiet a (a.populate now) := by
+  unfold populate
+  split
+  · exact Quiet.refl a
+  · exact get_quiet a _ _ _ now
+
+
+theorem sendPuts_quiet (spec : PutSpec) (sent : List ((Addr × Bytes) × Nat)) : ∀ a : Actor, Quiet a (sendPuts a spec sent) := by
+  unfold sendPuts
+  induction sent with
+  | nil => intro a; exact Quiet.refl a
+  | cons x xs ih =>
+    intro a
+    simp only [List.foldl_cons]
+    refine Quiet.trans ?_ (ih _)
+    exact ⟨rfl, rfl, rfl, _, rfl, by
+      intro y hy
+      simp only [List.mem_singleton] at hy
+      subst hy
+      exact ⟨⟨_, rfl⟩, rfl⟩⟩
+
+theorem startPut_quiet (a : Actor) (e : PutEntry) (closest : List Node) (now : Nat) :
+    Quiet a (startPut a e closest now).1 := by
+  unfold startPut
+  exact Quiet.trans (Quiet.silent rfl rfl rfl rfl : Quiet a { a with sock := (e.q.start a.sock closest now).2.1 })
+    (sendPuts_quiet _ _ _)
+
+theorem startPutOne_quiet (now : Nat) (acc : Actor × List (Id × Option PutErr)) (d : Id × List Node) :
+    Quiet acc.1 (startPutOne now acc d).1 := by
+  unfold startPutOne
+  split
+  · rename_i e _
+    have h := startPut_quiet acc.1 e d.2 now
+    split
+    · exact Quiet.trans h (Quiet.silent rfl rfl rfl rfl)
+    · exact Quiet.trans h (Quiet.silent rfl rfl rfl rfl)
+  · exact Quiet.refl _
+
+theorem startPuts_quiet (a : Actor) (now : Nat) (di : List (Id × List Node)) (dp : List (Id × Option PutErr)) :
+    Quiet a (startPuts a now di dp).1 := by
+  unfold startPuts
+  have : ∀ (l : List (Id × List Node)) (acc : Actor × List (Id × Option PutErr)),
+      Quiet acc.1 (l.foldl (startPutOne now) acc).1 := by
+    intro l
+    induction l with
+    | nil => intro acc; exact Quiet.refl _
+    | cons d ds ih => intro acc; simp only [List.foldl_cons]; exact Quiet.trans (startPutOne_quiet now acc d) (ih _)
+  exact this di (a, dp)
+
+theorem checkConcurrency_mode (c : Core) (spec : PutSpec) :
+    (checkConcurrency c spec).1.serverMode = c.serverMode ∧ (checkConcurrency c spec).1.server = c.server := by
+  cases spec with
+  | putMutable target v k seq sig salt cas =>
+    simp only [checkConcurrency]
+    split
+    · split
+      · split
+        · exact ⟨rfl, rfl⟩
+        · split
+          · exact ⟨rfl, rfl⟩
+          · split
+            · split <;> exact ⟨rfl, rfl⟩
+            · exact ⟨rfl, rfl⟩
+      · exact ⟨rfl, rfl⟩
+    · exact ⟨rfl, rfl⟩
+  | putImmutable _ _ => exact ⟨rfl, rfl⟩
+  | announcePeer _ _ _ => exact ⟨rfl, rfl⟩
+  | announceSignedPeer _ _ _ _ => exact ⟨rfl, rfl⟩
+
+theorem put_quiet (a : Actor) (spec : PutSpec) (extra : List Node) (now : Nat) :
+    Quiet a (a.put spec extra now).1 := by
+  obtain ⟨k1, k2⟩ := checkConcurrency_mode a.core spec
+  have h0 : Quiet a { a with core := (checkConcurrency a.core spec).1 } :=
+    Quiet.silent rfl rfl k1 (by simp [held, k2])
+  unfold Actor.put
+  split
+  · exact h0
+  · refine Quiet.trans h0 ?_
+    generalize ({ a with core := (checkConcurrency a.core spec).1 } : Actor) = b
+    unfold putAfterCheck
+    obtain ⟨g1, _, _, _, _, _, _, g8, _⟩ := getCached_fields b.core spec.target now
+    have h1 : Quiet b { b with core := (getCachedClosestNodes b.core spec.target now).1 } :=
+      Quiet.silent rfl rfl g1 (by simp [held, g8])
+    split
+    · rename_i closest _
+      refine Quiet.trans h1 ?_
+      generalize ({ b with core := (getCachedClosestNodes b.core spec.target now).1 } : Actor) = c
+      unfold putFromCache
+      have h2 := startPut_quiet c (newPutEntry spec extra) closest now
+      split
+      · exact h2
+      · exact Quiet.trans h2 (Quiet.silent rfl rfl rfl rfl)
+    · refine Quiet.trans h1 ?_
+      generalize ({ b with core := (getCachedClosestNodes b.core spec.target now).1 } : Actor) = c
+      exact Quiet.trans (get_quiet c _ _ _ now) (Quiet.silent rfl rfl rfl rfl)
+
+theorem pickup_quiet (a : Actor) (env : Env) (msg : Option ApiMsg) : Quiet a (a.pickup env msg) := by
+  unfold pickup
+  split
+  · exact Quiet.refl a
+  · exact Quiet.refl a
+  · exact Quiet.silent rfl rfl rfl rfl
+  · rename_i c spec extra
+    unfold pickupPut
+    have := put_quiet a spec extra env.now
+    split
+    · exact Quiet.trans this (Quiet.silent rfl rfl rfl rfl)
+    · exact Quiet.trans this (Quiet.silent rfl rfl rfl rfl)
+  · rename_i kind target sender
+    unfold pickupGet
+    exact Quiet.trans (get_quiet a kind target [] env.now) (Quiet.silent rfl rfl rfl rfl)
+
+
+theorem addResponder_mode (c : Core) (now : Nat) (src : Addr) (m : Message) :
+    (addResponder c now src m).serverMode = c.serverMode ∧ (addResponder c now src m).server = c.server := by
+  unfold addResponder
+  split
+  · split <;> exact ⟨rfl, rfl⟩
+  · exact ⟨rfl, rfl⟩
+
+theorem handleResponse_mode (c : Core) (env : Env) (src : Addr) (m : Message) :
+    (handleResponse c env src m).1.serverMode = c.serverMode ∧ (handleResponse c env src m).1.server = c.server := by
+  unfold handleResponse
+  split
+  · exact ⟨rfl, rfl⟩
+  · split
+    · exact ⟨rfl, rfl⟩
+    · split
+      · split
+        · exact addResponder_mode _ _ _ _
+        · exact ⟨rfl, rfl⟩
+      · split
+        · exact addResponder_mode _ _ _ _
+        · exact ⟨rfl, rfl⟩
+
+/-- a node in client mode handles any incoming message without replying, storing or leaving
+    client mode -/
+theorem handleIncoming_quiet (a : Actor) (hc : a.core.serverMode = false) (env : Env)
+    (handed : Option (Message × Addr)) : Quiet a (a.handleIncoming env handed).1 := by
+  unfold handleIncoming
+  cases handed with
+  | none => exact Quiet.refl a
+  | some p =>
+    obtain ⟨m, src⟩ := p
+    simp only
+    cases hm : m.mtype with
+    | request req =>
+      simp only
+      obtain ⟨r1, r2⟩ := client_never_replies a.core hc env src m.readOnly m.version req
+      have r3 := client_never_stores a.core hc env src m.readOnly m.version req
+      simp only at r3
+      have hb : Quiet a (sendReply { a with core := (handleRequest a.core env src m.readOnly m.version req).1 } src m.tid
+          (handleRequest a.core env src m.readOnly m.version req).2.1) := by
+        rw [r1]
+        exact Quiet.silent rfl rfl (by simp [sendReply, r2, hc]) (by simp [held, sendReply, r3.1, r3.2.1, r3.2.2.1, r3.2.2.2])
+      unfold handleIncomingRequest
+      split
+      · exact Quiet.trans hb (populate_quiet _ env.now)
+      · exact hb
+    | response r =>
+      obtain ⟨h1, h2⟩ := handleResponse_mode a.core env src m
+      exact Quiet.silent rfl rfl h1 (by simp [held, h2])
+    | error e =>
+      obtain ⟨h1, h2⟩ := handleResponse_mode a.core env src m
+      exact Quiet.silent rfl rfl h1 (by simp [held, h2])
+
+theorem preDone_quiet (a : Actor) (hc : a.core.serverMode = false) (env : Env) (dgram : Option (Message × Addr)) :
+    Quiet a (a.preDone env dgram) := by
+  unfold preDone
+  have h1 : Quiet a (a.recvPhase env.now dgram).1 := by
+    unfold recvPhase
+    cases dgram with
+    | none => exact Quiet.refl a
+    | some p => exact Quiet.silent rfl rfl rfl rfl
+  have h2 := handleIncoming_quiet (a.recvPhase env.now dgram).1 (by rw [h1.core]; exact hc) env (a.recvPhase env.now dgram).2
+  have h3 : ∀ (b : Actor) (v : Option (Id × Value)), Quiet b (b.forwardValue v) := by
+    intro b v
+    unfold forwardValue
+    split
+    · split
+      · exact Quiet.silent rfl rfl rfl rfl
+      · exact Quiet.refl b
+    · exact Quiet.refl b
+  exact Quiet.trans h1 (Quiet.trans h2 (h3 _ _))
+
+theorem visitClosest_quiet (a : Actor) (t : Id) (now : Nat) : Quiet a (a.visitClosest t now) := by
+  unfold visitClosest
+  cases hg : alGet a.core.iter t with
+  | none => exact Quiet.refl a
+  | some q =>
+    simp only
+    obtain ⟨hc, _⟩ := visitAll_core a q q.closestCandidates now
+    exact Quiet.trans (visitAll_quiet a q q.closestCandidates now) (Quiet.silent rfl rfl (by simp [hc]) (by simp [held, hc]))
+
+theorem visitClosestAll_quiet (a : Actor) (now : Nat) : Quiet a (a.visitClosestAll now) := by
+  unfold visitClosestAll
+  have : ∀ (l : List (Id × IterQuery)) (b : Actor),
+      Quiet b (l.foldl (fun (a : Actor) (p : Id × IterQuery) => a.visitClosest p.1 now) b) := by
+    intro l
+    induction l with
+    | nil => intro b; exact Quiet.refl b
+    | cons p ps ih => intro b; simp only [List.foldl_cons]; exact Quiet.trans (visitClosest_quiet b p.1 now) (ih _)
+  exact this _ a
+
+theorem cleanupDone_mode (c : Core) (di : List (Id × List Node)) (dp : List (Id × Option PutErr)) :
+    (cleanupDone c di dp).1.serverMode = c.serverMode ∧ (cleanupDone c di dp).1.server = c.server := by
+  have hdec : ∀ (c : Core) (e : Option CachedQuery), (decrementCached c e).serverMode = c.serverMode ∧
+      (decrementCached c e).server = c.server := by
+    intro c e; unfold decrementCached
+    split
+    · split
+      · exact ⟨rfl, rfl⟩
+      · split <;> exact ⟨rfl, rfl⟩
+    · exact ⟨rfl, rfl⟩
+  have hcount : ∀ (c : Core) (e : CachedQuery), (countEntry c e).serverMode = c.serverMode ∧ (countEntry c e).server = c.server := by
+    intro c e; unfold countEntry
+    split
+    · exact ⟨rfl, rfl⟩
+    · split <;> exact ⟨rfl, rfl⟩
+  have hevict : ∀ c : Core, (evictIfFull c).serverMode = c.serverMode ∧ (evictIfFull c).server = c.server := by
+    intro c; unfold evictIfFull
+    split
+    · exact hdec _ _
+    · exact ⟨rfl, rfl⟩
+  have hcache : ∀ (c : Core) (q : IterQuery) (ns : List Node), (cacheQuery c q ns).serverMode = c.serverMode ∧
+      (cacheQuery c q ns).server = c.server := by
+    intro c q ns; unfold cacheQuery
+    split
+    · exact hevict c
+    · obtain ⟨a1, a2⟩ := hcount (decrementCached { (evictIfFull c) with cache := (evictIfFull c).cache.put q.target (mkEntry q ns) }
+        ((evictIfFull c).cache.find? q.target)) (mkEntry q ns)
+      obtain ⟨b1, b2⟩ := hdec { (evictIfFull c) with cache := (evictIfFull c).cache.put q.target (mkEntry q ns) }
+        ((evictIfFull c).cache.find? q.target)
+      obtain ⟨e1, e2⟩ := hevict c
+      exact ⟨a1.trans (b1.trans e1), a2.trans (b2.trans e2)⟩
+  have hvotes : ∀ (c : Core) (q : IterQuery), (updateAddressVotes c q).1.serverMode = c.serverMode ∧
+      (updateAddressVotes c q).1.server = c.server := by
+    intro c q; unfold updateAddressVotes
+    split
+    · split <;> exact ⟨rfl, rfl⟩
+    · exact ⟨rfl, rfl⟩
+  have hone : ∀ (acc : Core × Option Addr) (d : Id × List Node), (cleanupOneLookup acc d).1.serverMode = acc.1.serverMode ∧
+      (cleanupOneLookup acc d).1.server = acc.1.server := by
+    intro acc d; unfold cleanupOneLookup
+    split
+    · rename_i q _
+      obtain ⟨v1, v2⟩ := hvotes (cacheQuery { acc.1 with iter := alRemove acc.1.iter d.1 } q d.2) q
+      obtain ⟨c1, c2⟩ := hcache { acc.1 with iter := alRemove acc.1.iter d.1 } q d.2
+      split <;> exact ⟨v1.trans c1, v2.trans c2⟩
+    · exact ⟨rfl, rfl⟩
+  unfold cleanupDone
+  have h1 : ∀ (l : List (Id × List Node)) (acc : Core × Option Addr),
+      (l.foldl cleanupOneLookup acc).1.serverMode = acc.1.serverMode ∧ (l.foldl cleanupOneLookup acc).1.server = acc.1.server := by
+    intro l
+    induction l with
+    | nil => intro acc; exact ⟨rfl, rfl⟩
+    | cons d ds ih =>
+      intro acc; simp only [List.foldl_cons]
+      obtain ⟨i1, i2⟩ := ih (cleanupOneLookup acc d)
+      obtain ⟨o1, o2⟩ := hone acc d
+      exact ⟨i1.trans o1, i2.trans o2⟩
+  have h2 : ∀ (l : List (Id × Option PutErr)) (c' : Core), (l.foldl removePut c').serverMode = c'.serverMode ∧
+      (l.foldl removePut c').server = c'.server := by
+    intro l
+    induction l with
+    | nil => intro c'; exact ⟨rfl, rfl⟩
+    | cons d ds ih => intro c'; simp only [List.foldl_cons]; obtain ⟨i1, i2⟩ := ih (removePut c' d); exact ⟨i1, i2⟩
+  simp only
+  obtain ⟨a1, a2⟩ := h2 dp (di.foldl cleanupOneLookup (c, none)).1
+  obtain ⟨b1, b2⟩ := h1 di (c, none)
+  exact ⟨a1.trans b1, a2.trans b2⟩
+
+theorem finishTick_quiet (a : Actor) (now : Nat) (dp0 : List (Id × Option PutErr)) : Quiet a (finishTick a now dp0) := by
+  unfold finishTick
+  generalize a.doneLookups now = di
+  have h1 := startPuts_quiet a now di dp0
+  generalize startPuts a now di dp0 = sp at h1
+  obtain ⟨m1, m2⟩ := cleanupDone_mode sp.1.core di sp.2
+  have h2 : Quiet sp.1 { sp.1 with core := (cleanupDone sp.1.core di sp.2).1 } :=
+    Quiet.silent rfl rfl m1 (by simp [held, m2])
+  generalize cleanupDone sp.1.core di sp.2 = cd at h2
+  have hping : ∀ (b : Actor) (to : Option Addr), Quiet b (b.pingOpt to now) := by
+    intro b to; unfold pingOpt; split
+    · exact ping_quiet b _ now
+    · exact Quiet.refl b
+  have hrg : ∀ (l : List (Id × List Node)) (b : Actor), Quiet b (b.releaseGetCallers l) := by
+    intro l
+    unfold releaseGetCallers
+    induction l with
+    | nil => intro b; exact Quiet.refl b
+    | cons d ds ih =>
+      intro b
+      simp only [List.foldl_cons]
+      refine Quiet.trans ?_ (ih _)
+      unfold releaseGetOne
+      split
+      · exact Quiet.silent rfl rfl rfl rfl
+      · exact Quiet.refl b
+  have hrp : ∀ (l : List (Id × Option PutErr)) (b : Actor), Quiet b (b.releasePutCallers l) := by
+    intro l
+    unfold releasePutCallers
+    induction l with
+    | nil => intro b; exact Quiet.refl b
+    | cons d ds ih =>
+      intro b
+      simp only [List.foldl_cons]
+      refine Quiet.trans ?_ (ih _)
+      unfold releasePutOne
+      split
+      · exact Quiet.silent rfl rfl rfl rfl
+      · exact Quiet.refl b
+  exact Quiet.trans h1 (Quiet.trans h2 (Quiet.trans (hping _ _) (Quiet.trans (hrg _ _) (hrp _ _))))
+
+theorem afterRecv_quiet (a : Actor) (hc : a.core.serverMode = false) (env : Env) (dgram : Option (Message × Addr)) :
+    Quiet a (a.afterRecv env dgram) := by
+  unfold afterRecv
+  exact Quiet.trans (preDone_quiet a hc env dgram)
+    (Quiet.trans (visitClosestAll_quiet _ env.now) (finishTick_quiet _ env.now _))
+
+
+theorem pingTable_quiet (a : Actor) (now : Nat) : Quiet a (a.pingTable now) := by
+  unfold pingTable
+  split
+  · have hfold : ∀ (l : List Addr) (b : Actor), Quiet b (l.foldl (fun a addr => a.ping addr now) b) := by
+      intro l
+      induction l with
+      | nil => intro b; exact Quiet.refl b
+      | cons x xs ih => intro b; simp only [List.foldl_cons]; exact Quiet.trans (ping_quiet b x now) (ih _)
+    refine Quiet.trans ?_ (hfold _ _)
+    exact Quiet.silent rfl rfl (by simp [pingRound]) (by simp [held, pingRound])
+  · exact Quiet.refl a
+
+theorem bootstrapIfEmpty_quiet (a : Actor) (now : Nat) : Quiet a (a.bootstrapIfEmpty now) := by
+  unfold bootstrapIfEmpty
+  split
+  · exact populate_quiet a now
+  · exact Quiet.refl a
+
+/-- the only place where a node changes mode: the adaptive switch at a refresh.  Either nothing
+    switches and the refresh is quiet, or the node — a client that is not firewalled — becomes a
+    server in the core and in the socket alike, sends nothing flagged read-only afterwards, and still
+    stores nothing in this step -/
+theorem refreshTable_cases (a : Actor) (now : Nat) :
+    Quiet a (a.refreshTable now) ∨
+    (a.core.serverMode = false ∧ a.core.firewalled = false ∧
+      (a.refreshTable now).sockServerMode = true ∧ (a.refreshTable now).core.serverMode = true ∧
+      held (a.refreshTable now) = held a ∧
+      ∃ l, (a.refreshTable now).out = a.out ++ l ∧ ∀ x ∈ l, RoRequest true x.2) := by
+  unfold refreshTable
+  split
+  · by_cases hsw : (!a.core.serverMode && !a.core.firewalled) = true
+    · right
+      simp only [Bool.and_eq_true, Bool.not_eq_true'] at hsw
+      generalize hb : adaptiveSwitch { a with core := { a.core with lastRefresh := now } } = b
+      have hbs : b.sockServerMode = true ∧ b.core.serverMode = true ∧ b.out = a.out ∧ held b = held a := by
+        rw [← hb]; simp [adaptiveSwitch, hsw.1, hsw.2, held]
+      have hq := populate_quiet b now
+      obtain ⟨l, hl, hp⟩ := hq.sent
+      refine ⟨hsw.1, hsw.2, by rw [hq.sock]; exact hbs.1, by rw [hq.core]; exact hbs.2.1, by rw [hq.stores]; exact hbs.2.2.2,
+        l, by rw [hl, hbs.2.2.1], ?_⟩
+      intro x hx
+      have := hp x hx
+      rw [hbs.1] at this
+      exact this
+    · left
+      have : adaptiveSwitch { a with core := { a.core with lastRefresh := now } } = { a with core := { a.core with lastRefresh := now } } := by
+        unfold adaptiveSwitch
+        simp only at hsw ⊢
+        simp [hsw]
+      rw [this]
+      have h0 : Quiet a { a with core := { a.core with lastRefresh := now } } := Quiet.silent rfl rfl rfl rfl
+      exact Quiet.trans h0 (populate_quiet _ now)
+  · exact Or.inl (Quiet.refl a)
+
+/-- **C18, the whole node.**  Take a node in client mode (core and socket) in any state, and run one
+    iteration of its loop with any datagram — a request of any kind, a reply, garbage — and any API
+    call.  Then: what it stores for others is unchanged; everything it put on the wire is a request —
+    it never replied; if it is still a client afterwards, every one of those requests is flagged
+    read-only; and core and socket agree on the mode afterwards. -/
+theorem client_step (a : Actor) (hc : a.core.serverMode = false) (hs : a.sockServerMode = false)
+    (env : Env) (dgram : Option (Message × Addr)) (msg : Option ApiMsg) :
+    held (a.step env dgram msg) = held a ∧
+    (∃ l, (a.step env dgram msg).out = a.out ++ l ∧
+      ∀ x ∈ l, (∃ r, x.2.mtype = .request r) ∧ ((a.step env dgram msg).sockServerMode = false → x.2.readOnly = true)) ∧
+    (a.step env dgram msg).sockServerMode = (a.step env dgram msg).core.serverMode := by
+  have hstep : a.step env dgram msg =
+      { (((((a.afterRecv env dgram).pickup env msg).bootstrapIfEmpty env.now).refreshTable env.now).pingTable env.now) with
+        sock := (((((a.afterRecv env dgram).pickup env msg).bootstrapIfEmpty env.now).refreshTable env.now).pingTable env.now).sock.cleanup env.now } := rfl
+  rw [hstep]
+  have h1 : Quiet a ((a.afterRecv env dgram).pickup env msg) :=
+    Quiet.trans (afterRecv_quiet a hc env dgram) (pickup_quiet _ env msg)
+  have h2 := Quiet.trans h1 (bootstrapIfEmpty_quiet _ env.now)
+  generalize ((a.afterRecv env dgram).pickup env msg).bootstrapIfEmpty env.now = b1 at h2 ⊢
+  -- the rest of the step: refresh (the only possible switch), ping round, socket cleanup
+  have hfin : ∀ (c : Actor), Quiet c ({ (c.pingTable env.now) with sock := (c.pingTable env.now).sock.cleanup env.now } : Actor) :=
+    fun c => Quiet.trans (pingTable_quiet c env.now) (Quiet.silent rfl rfl rfl rfl)
+  have hb1s : b1.sockServerMode = false := by rw [h2.sock]; exact hs
+  have hb1c : b1.core.serverMode = false := by rw [h2.core]; exact hc
+  obtain ⟨l1, e1, p1⟩ := h2.sent
+  rcases refreshTable_cases b1 env.now with hq | ⟨_, _, hsock, hcore, hheld, l2, e2, p2⟩
+  · -- no switch: the whole step is quiet
+    have hall := Quiet.trans h2 (Quiet.trans hq (hfin _))
+    obtain ⟨l, e, p⟩ := hall.sent
+    refine ⟨hall.stores, ⟨l, e, ?_⟩, by rw [hall.sock, hall.core, hs, hc]⟩
+    intro x hx
+    obtain ⟨hr, hro⟩ := p x hx
+    refine ⟨hr, fun _ => ?_⟩
+    rw [hro, hs]; rfl
+  · -- the adaptive switch happened in this step
+    have h3 := hfin (b1.refreshTable env.now)
+    obtain ⟨l3, e3, p3⟩ := h3.sent
+    refine ⟨by rw [h3.stores, hheld, h2.stores], ⟨l1 ++ l2 ++ l3, by rw [e3, e2, e1]; simp [List.append_assoc], ?_⟩,
+      by rw [h3.sock, h3.core, hsock, hcore]⟩
+    intro x hx
+    have hfinal : ({ ((b1.refreshTable env.now).pingTable env.now) with
+        sock := ((b1.refreshTable env.now).pingTable env.now).sock.cleanup env.now } : Actor).sockServerMode = true := by
+      rw [h3.sock, hsock]
+    refine ⟨?_, fun hf => by rw [hfinal] at hf; cases hf⟩
+    rcases List.mem_append.1 hx with hx | hx
+    · rcases List.mem_append.1 hx with hx | hx
+      · exact (p1 x hx).1
+      · exact (p2 x hx).1
+    · exact (p3 x hx).1
+
+
+/-! ### modes never go back: a server stays a server through a whole step -/
+
+/-- both mode bits -/
+def mode2 (a : Actor) : Bool × Bool := (a.sockServerMode, a.core.serverMode)
+
+theorem Quiet.modes_eq {a a' : Actor} (h : Quiet a a') : mode2 a' = mode2 a := by
+  unfold mode2; rw [h.sock, h.core]
+
+theorem handleRequest_serverMode (c : Core) (env : Env) (src : Addr) (ro : Bool) (version : Option Bytes) (req : Request) :
+    (handleRequest c env src ro version req).1.serverMode = c.serverMode := by
+  have h1 : (maybeAddNodeFromRequest c src version ro req env.now).serverMode = c.serverMode := by
+    unfold maybeAddNodeFromRequest
+    split
+    · split
+      · unfold addRequester
+        split
+        · split <;> rfl
+        · split <;> rfl
+      · rfl
+    · rfl
+  have h2 := verifySelfPing_serverMode (maybeAddNodeFromRequest c src version ro req env.now) src req env.now
+  unfold handleRequest serveRequest
+  split
+  · exact h2.trans h1
+  · exact h2.trans h1
+
+theorem handleIncoming_mode2 (a : Actor) (env : Env) (handed : Option (Message × Addr)) :
+    mode2 (a.handleIncoming env handed).1 = mode2 a := by
+  unfold handleIncoming
+  cases handed with
+  | none => rfl
+  | some p =>
+    obtain ⟨m, src⟩ := p
+    simp only
+    cases hm : m.mtype with
+    | request req =>
+      simp only
+      have hb : mode2 (sendReply { a with core := (handleRequest a.core env src m.readOnly m.version req).1 } src m.tid
+          (handleRequest a.core env src m.readOnly m.version req).2.1) = mode2 a := by
+        have := handleRequest_serverMode a.core env src m.readOnly m.version req
+        unfold sendReply
+        split <;> simp [mode2, reply, this]
+      unfold handleIncomingRequest
+      split
+      · rw [(populate_quiet _ env.now).modes_eq]; exact hb
+      · exact hb
+    | response r => simp [mode2, (handleResponse_mode a.core env src m).1]
+    | error e => simp [mode2, (handleResponse_mode a.core env src m).1]
+
+theorem afterRecv_pickup_mode2 (a : Actor) (env : Env) (dgram : Option (Message × Addr)) (msg : Option ApiMsg) :
+    mode2 ((a.afterRecv env dgram).pickup env msg) = mode2 a := by
+  rw [(pickup_quiet _ env msg).modes_eq]
+  unfold afterRecv
+  rw [(finishTick_quiet _ env.now _).modes_eq, (visitClosestAll_quiet _ env.now).modes_eq]
+  unfold preDone
+  have h3 : ∀ (b : Actor) (v : Option (Id × Value)), mode2 (b.forwardValue v) = mode2 b := by
+    intro b v
+    unfold forwardValue
+    split
+    · split <;> rfl
+    · rfl
+  rw [h3, handleIncoming_mode2]
+  unfold recvPhase
+  cases dgram with
+  | none => rfl
+  | some p => rfl
+
+/-- nothing ever switches a server back -/
+theorem server_step (a : Actor) (hc : a.core.serverMode = true) (hs : a.sockServerMode = true)
+    (env : Env) (dgram : Option (Message × Addr)) (msg : Option ApiMsg) :
+    (a.step env dgram msg).core.serverMode = true ∧ (a.step env dgram msg).sockServerMode = true := by
+  have h1 := afterRecv_pickup_mode2 a env dgram msg
+  simp only [mode2, Prod.mk.injEq] at h1
+  have h2 := server_stays_server ((a.afterRecv env dgram).pickup env msg) env.now (by rw [h1.2]; exact hc) (by rw [h1.1]; exact hs)
+  exact h2
+
+/-- **C18, every run.**  Start from a node in client mode and run its loop through any inputs.  If
+    it is still a client at the end, it has put nothing but read-only requests on the wire during
+    the whole run — not one reply — and what it stores for others never changed. -/
+theorem client_run (ins : List StepIn) : ∀ (a : Actor), a.core.serverMode = false → a.sockServerMode = false →
+    (runSteps a ins).sockServerMode = false →
+    held (runSteps a ins) = held a ∧
+    ∃ l, (runSteps a ins).out = a.out ++ l ∧ ∀ x ∈ l, (∃ r, x.2.mtype = .request r) ∧ x.2.readOnly = true := by
+  unfold runSteps
+  induction ins with
+  | nil => intro a _ _ _; exact ⟨rfl, [], by simp, by intro x h; cases h⟩
+  | cons i is ih =>
+    intro a hc hs hend
+    simp only [List.foldl_cons] at hend ⊢
+    obtain ⟨k1, ⟨l1, e1, p1⟩, k3⟩ := client_step a hc hs i.env i.dgram i.msg
+    -- the node is still a client after the first step: otherwise it would be a server at the end
+    have hmid : (a.step i.env i.dgram i.msg).sockServerMode = false := by
+      cases hmode : (a.step i.env i.dgram i.msg).sockServerMode with
+      | false => rfl
+      | true =>
+        exfalso
+        have hcore : (a.step i.env i.dgram i.msg).core.serverMode = true := by rw [← k3]; exact hmode
+        have hmono : ∀ (l : List StepIn) (b : Actor), b.core.serverMode = true → b.sockServerMode = true →
+            (l.foldl (fun a i => a.step i.env i.dgram i.msg) b).sockServerMode = true := by
+          intro l
+          induction l with
+          | nil => intro b _ hb; exact hb
+          | cons j js ihj =>
+            intro b hbc hbs
+            simp only [List.foldl_cons]
+            obtain ⟨s1, s2⟩ := server_step b hbc hbs j.env j.dgram j.msg
+            exact ihj _ s1 s2
+        have := hmono is _ hcore hmode
+        rw [this] at hend
+        cases hend
+    obtain ⟨i1, l2, e2, p2⟩ := ih _ (by rw [← k3]; exact hmid) hmid hend
+    refine ⟨i1.trans k1, l1 ++ l2, by rw [e2, e1, List.append_assoc], ?_⟩
+    intro x hx
+    rcases List.mem_append.1 hx with h | h
+    · exact ⟨(p1 x h).1, (p1 x h).2 hmid⟩
+    · exact p2 x h
+
+/-- a freshly created client is in client mode in the core and in the socket (it starts firewalled,
+    so the first maintenance cannot switch it) -/
+theorem create_client (cfg : NodeConfig) (hcfg : cfg.serverMode = false) (seed : UInt64) (now : Nat) :
+    (Actor.create cfg seed now).core.serverMode = false ∧ (Actor.create cfg seed now).sockServerMode = false := by
+  unfold Actor.create
+  simp only
+  have := firewalled_client_stays_client
+    ({ sockServerMode := cfg.serverMode,
+       core := { bootstrap := cfg.bootstrap,
+                 rt := { id := (match cfg.publicIp with
+                   | some ip => (Id.fromIpv4 (rngFill 21 seed).1 ip, (rngFill 21 seed).2)
+                   | none => ((⟨(rngFill 20 seed).1⟩ : Id), (rngFill 20 seed).2)).1 },
+                 srt := { id := (match cfg.publicIp with
+                   | some ip => (Id.fromIpv4 (rngFill 21 seed).1 ip, (rngFill 21 seed).2)
+                   | none => ((⟨(rngFill 20 seed).1⟩ : Id), (rngFill 20 seed).2)).1 },
+                 lastRefresh := now, lastPing := now,
+                 server := Server.new cfg.caps.1 cfg.caps.2.1 cfg.caps.2.2.1 cfg.caps.2.2.2
+                   (match cfg.publicIp with
+                   | some ip => (Id.fromIpv4 (rngFill 21 seed).1 ip, (rngFill 21 seed).2)
+                   | none => ((⟨(rngFill 20 seed).1⟩ : Id), (rngFill 20 seed).2)).2 now,
+                 serverMode := cfg.serverMode } } : Actor) now hcfg hcfg rfl
+  exact this
+
+
+/-- non-vacuity: a freshly created client-mode node meets the hypotheses of `client_step` and
+    `client_run`, whatever its configuration otherwise -/
+example (boot : List Addr) (ip : Option UInt32) (seed : UInt64) (now : Nat) (ins : List StepIn)
+    (hend : (runSteps (Actor.create { serverMode := false, bootstrap := boot, publicIp := ip } seed now) ins).sockServerMode = false) :
+    ∃ l, (runSteps (Actor.create { serverMode := false, bootstrap := boot, publicIp := ip } seed now) ins).out
+        = (Actor.create { serverMode := false, bootstrap := boot, publicIp := ip } seed now).out ++ l ∧
+      ∀ x ∈ l, (∃ r, x.2.mtype = .request r) ∧ x.2.readOnly = true :=
+  (client_run ins _ (create_client _ rfl seed now).1 (create_client _ rfl seed now).2 hend).2
 
 end Mainline.Props.C18
